@@ -33,7 +33,7 @@ CFG = {
                   "command returned by any handler call of a history — all phases, notifications, Init, frames, nested batches — takes effect exactly "
                   "once, given the nesting budget did not run out). Handlers that return an error (Props/C15Err): Run returns at the failing call "
                   "(nothing after it, its command dropped), errors inside focusWidget are logged and the interpreter goes on.",
-    "level_note": "Proved: 53 theorems (Props/C15 27, C15Err 7, C15Gen 10, witnesses 9 showing the pre-fix code violating the statements). Validated by "
+    "level_note": "Proved: 58 theorems (Props/C15 26, C15Err 7, C15Gen 12, witnesses 13 showing the pre-fix code violating the statements and the fixed code meeting them). Validated by "
                   "correspondence only: that the model (incl. the error plumbing) equals vxfw.go (0 mismatches expected on ~38k quick / ~500k thorough op "
                   "lines, both streams), Go's sort.Slice stability for <= 12 children, uint16 coordinate arithmetic (proved equal to integer "
                   "arithmetic for sizes < 65536, hit_list_is_under). Modelled not verified: stack overflow on unbounded refocus recursion (fuel), "
